@@ -74,7 +74,7 @@ def check(tier, seed, replay=None):
         for i in range(n):
             e = X.gen_typed(rnd, table, rnd.choice(["num", "str", "bool", "list:num", "obj", "any"]), rnd.choice([1, 2, 3, 4]), X.Env())
             texts = [X.text(canonical_spelling(e))] + [X.text(respell(rnd, e, table)) for _ in range(3)]
-            plans.append({"kind": "spell", "texts": texts, "input": X.typed_input(rnd)})
+            plans.append({"kind": "spell", "texts": texts, "input": X.typed_input(rnd), "ast": X.strip(e)})
         for i in range(20 if quick else 1500):
             k = rnd.choice([3, 6, 12, 25, 40])
             pats = rnd.sample(PATTERNS, rnd.choice([1, 2, 3, 4]))
@@ -171,9 +171,28 @@ def check(tier, seed, replay=None):
         recs.append(rec)
         descs.append(d)
         chk.nontrivial.add(json.dumps(d, sort_keys=True)[:500])
+    # every spelling must be read by the specification's own reader (ExprSyntax.tla) as the intended expression
+    srecs, sdesc = [], []
+    for pi, p in enumerate(plans):
+        if p["kind"] == "spell":
+            for t in p["texts"]:
+                if EL.is_ascii(t) and "ast" in p:
+                    srecs.append({"case": len(srecs), "opt": "filter", "text": [ord(c) for c in t], "accepted": True, "ast": p["ast"]})
+                    sdesc.append({"kind": "spelling", "text": t})
+    if srecs:
+        ff = EL.funcs_file(table)
+        sflags, sres = run_trace_spec("Trace_Syntax", srecs, "c13s", nproc=2 if quick else 12, env={"FUNCS": ff})
+        os.remove(ff)
+        chk.traces += len(srecs)
+        chk.notes["spellings_read_by_ExprSyntax"] = len(srecs)
+        for kind, case, what in sflags:
+            if kind == "MISMATCH":
+                chk.violation("C13 spelling %r: %s" % (sdesc[case]["text"], what), {"recipe": sdesc[case], "flag": what})
+            else:
+                raise ToolError("ExprSyntax.tla refuses the generated spelling %r: %s" % (sdesc[case]["text"], what))
     flags, res = run_trace_spec("Trace_Expr", recs, "c13", nproc=4 if quick else 14)
     skipped = {c for k, c, w in flags if k == "SKIP"}
-    chk.traces = len(recs) - len(skipped)
+    chk.traces += len(recs) - len(skipped)
     chk.evaluations = len(cases)
     for j in sorted({0, len(descs) // 3, 2 * len(descs) // 3, len(descs) - 1}):
         chk.sample(descs[j])
